@@ -275,7 +275,11 @@ func intLit(n int64) string {
 }
 
 func (g *Gen) oblige(kind, label string, props []string, fn *ssa.Function, guard, goal, src string, pos token.Pos) *Obligation {
-	name := fmt.Sprintf("%s#%s:%s", g.funcKey(g.top), kind, label)
+	fk := g.funcKey(g.top)
+	if g.contract != nil && g.contract.View != "" && g.top != nil {
+		fk += "@" + g.contract.View
+	}
+	name := fmt.Sprintf("%s#%s:%s", fk, kind, label)
 	// unique names
 	base := name
 	for i := 2; ; i++ {
@@ -291,7 +295,7 @@ func (g *Gen) oblige(kind, label string, props []string, fn *ssa.Function, guard
 		}
 		name = fmt.Sprintf("%s~%d", base, i)
 	}
-	o := &Obligation{Name: name, Kind: kind, Label: label, Props: props, Func: g.funcKey(g.top), Guard: guard, Goal: goal, GoalSrc: src, Concrete: g.concrete, BufLen: len(g.buf)}
+	o := &Obligation{Name: name, Kind: kind, Label: label, Props: props, Func: fk, Guard: guard, Goal: goal, GoalSrc: src, Concrete: g.concrete, BufLen: len(g.buf)}
 	if pos.IsValid() {
 		p := g.w.prog.Fset.Position(pos)
 		o.Pos = fmt.Sprintf("%s:%d", strings.TrimPrefix(p.Filename, "/repo/"), p.Line)
@@ -482,6 +486,7 @@ func (g *Gen) typeInv(term string, t types.Type, depth int) []string {
 		}
 		if _, ov := sortOverrides[full]; ov {
 			if full == "github.com/cosmos/cosmos-sdk/types.Coins" {
+				g.useTheory("coins")
 				return []string{fmt.Sprintf("(Coins_valid %s)", term)}
 			}
 			return nil
